@@ -57,7 +57,7 @@ import (
 	"strings"
 )
 
-func init() { register("MerkleRoots", genMerkleRoots) }
+func init() { register("MerkleRoots", genMerkleRoots); register("Confirmations", genConfirmations) }
 
 type mrKind string
 
@@ -65,15 +65,29 @@ type mrKind string
 var mrLeanTy = map[mrKind]string{"int": "Int", "bool": "Bool", "key": "Option %H", "str": "String", "err": "Option Err",
 	"dbp": "Option (Row %H)", "hdrp": "Option (Row %H)", "dbv": "Row %H", "mroot": "Row %H", "hdr": "Row %H", "hash": "%H",
 	"dbvs": "List (Row %H)", "mroots": "List (Row %H)", "resp": "PagedResp %H", "respp": "Option (PagedResp %H)",
-	"rr": "RootResp %H", "rrs": "List (RootResp %H)", "pinfo": "PageInfo %H", "state": "St", "gin": "Gin"}
+	"rr": "RootResp %H", "rrs": "List (RootResp %H)", "pinfo": "PageInfo %H", "state": "St", "gin": "Gin",
+	"i32": "Int", "lit": "Int", "nstr": "Option %H", "cstate": "String", "item": "ReqItem %H", "items": "List (ReqItem %H)",
+	"dconf": "DbConf %H", "dconfp": "Option (DbConf %H)", "dconfps": "List (Option (DbConf %H))",
+	"conf": "Conf %H", "confp": "Option (Conf %H)", "confps": "List (Option (Conf %H))"}
 
 // Go type text ↦ kind, for parameters, results and `var` declarations
-var mrGoTy = map[string]mrKind{"string": "key", "int": "int", "int32": "int", "error": "err", "*dto.DbBlockHeader": "dbp",
+var mrGoTy = map[string]mrKind{"string": "key", "int": "int", "int32": "i32", "error": "err", "*dto.DbBlockHeader": "dbp",
 	"*domains.BlockHeader": "hdrp", "[]*dto.DbMerkleRoot": "mroots", "*domains.MerkleRootsESKPagedResponse": "respp",
-	"*gin.Context": "gin", "context.Context": "ctx"}
-var mrVarTy = map[string]mrKind{"dto.DbBlockHeader": "dbp", "[]dto.DbBlockHeader": "dbvs", "[]*dto.DbMerkleRoot": "mroots"}
-var mrVarZero = map[mrKind]string{"dbp": "none", "dbvs": "[]", "mroots": "[]"}
-var mrElem = map[mrKind]mrKind{"dbvs": "dbv", "mroots": "mroot", "rrs": "rr"}
+	"*gin.Context": "gin", "context.Context": "ctx",
+	"domains.MerkleRootConfirmationRequestItem": "item", "[]domains.MerkleRootConfirmationRequestItem": "items",
+	"*dto.DbMerkleRootConfirmation": "dconfp", "*DbMerkleRootConfirmation": "dconfp",
+	"[]*dto.DbMerkleRootConfirmation": "dconfps", "[]*DbMerkleRootConfirmation": "dconfps",
+	"*domains.MerkleRootConfirmation": "confp", "[]*domains.MerkleRootConfirmation": "confps"}
+var mrVarTy = map[string]mrKind{"dto.DbBlockHeader": "dbp", "[]dto.DbBlockHeader": "dbvs", "[]*dto.DbMerkleRoot": "mroots",
+	"int32": "i32", "sql.NullString": "nstr", "domains.MerkleRootConfirmationState": "cstate"}
+var mrVarZero = map[mrKind]string{"dbp": "none", "dbvs": "[]", "mroots": "[]", "i32": "(0 : Int)", "nstr": "none", "cstate": `""`}
+var mrElem = map[mrKind]mrKind{"dbvs": "dbv", "mroots": "mroot", "rrs": "rr", "items": "item", "dconfps": "dconfp", "confps": "confp"}
+
+// `make([]T, 0)` of these element types is the empty slice
+var mrMakeEmpty = map[string]mrKind{"[]*dto.DbMerkleRootConfirmation": "dconfps", "[]*domains.MerkleRootConfirmation": "confps"}
+
+// a local `&T{…}` is the struct value; where a pointer is expected it is `some` of it
+var mrSome = map[mrKind]mrKind{"resp": "respp", "dconf": "dconfp", "conf": "confp"}
 
 type mrField struct {
 	lean string // %s = the struct term
@@ -83,33 +97,59 @@ type mrField struct {
 
 // the data refinement: fields of the Go structs the code may read (rows) or read and write (response structs)
 var mrFields = map[mrKind]map[string]mrField{
-	"dbv":   {"Height": {"(%s.height : Int)", "int", ""}, "MerkleRoot": {"(some %s.merkle)", "key", ""}},
-	"mroot": {"Height": {"(%s.height : Int)", "int", ""}, "MerkleRoot": {"(some %s.merkle)", "key", ""}},
-	"hdr":   {"Height": {"(%s.height : Int)", "int", ""}, "MerkleRoot": {"%s.merkle", "hash", ""}, "State": {"%s.st", "state", ""}},
+	"dbv":   {"Height": {"(%s.height : Int)", "i32", ""}, "MerkleRoot": {"(some %s.merkle)", "key", ""}},
+	"mroot": {"Height": {"(%s.height : Int)", "i32", ""}, "MerkleRoot": {"(some %s.merkle)", "key", ""}},
+	"hdr":   {"Height": {"(%s.height : Int)", "i32", ""}, "MerkleRoot": {"%s.merkle", "hash", ""}, "State": {"%s.st", "state", ""}},
 	"resp":  {"Content": {"%s.content", "rrs", "content"}, "Page": {"%s.page", "pinfo", "page"}},
-	"pinfo": {"TotalElements": {"%s.totalElements", "int", "totalElements"}, "Size": {"%s.size", "int", "size"}, "LastEvaluatedKey": {"%s.lastEvaluatedKey", "key", "lastEvaluatedKey"}},
-	"rr":    {"MerkleRoot": {"%s.merkleRoot", "key", "merkleRoot"}, "BlockHeight": {"%s.blockHeight", "int", "blockHeight"}},
+	"pinfo": {"TotalElements": {"%s.totalElements", "i32", "totalElements"}, "Size": {"%s.size", "int", "size"}, "LastEvaluatedKey": {"%s.lastEvaluatedKey", "key", "lastEvaluatedKey"}},
+	"rr":    {"MerkleRoot": {"%s.merkleRoot", "key", "merkleRoot"}, "BlockHeight": {"%s.blockHeight", "i32", "blockHeight"}},
+	"item":  {"MerkleRoot": {"%s.merkleRoot", "key", ""}, "BlockHeight": {"%s.blockHeight", "i32", ""}},
+	"dconf": {"MerkleRoot": {"%s.merkleRoot", "key", "merkleRoot"}, "BlockHeight": {"%s.blockHeight", "i32", "blockHeight"},
+		"Hash": {"%s.hash", "nstr", "hash"}, "TipHeight": {"%s.tipHeight", "i32", "tipHeight"}},
+	"conf": {"MerkleRoot": {"%s.merkleRoot", "key", "merkleRoot"}, "BlockHeight": {"%s.blockHeight", "i32", "blockHeight"},
+		"Hash": {"%s.hash", "key", "hash"}, "Confirmation": {"%s.confirmation", "cstate", "confirmation"}},
+	"nstr": {"Valid": {"%s.isSome", "bool", ""}, "String": {"%s", "key", ""}}, // sql.NullString ≙ Option: String is "" when not Valid
 }
-var mrFieldOrder = map[mrKind][]string{"resp": {"Content", "Page"}, "pinfo": {"TotalElements", "Size", "LastEvaluatedKey"}, "rr": {"MerkleRoot", "BlockHeight"}}
-var mrPtrOf = map[mrKind]mrKind{"dbp": "dbv", "hdrp": "hdr"} // pointer kind ↦ what a dereference yields
-var mrLitTy = map[string]mrKind{"domains.MerkleRootsESKPagedResponse": "resp", "domains.ExclusiveStartKeyPageInfo": "pinfo", "domains.MerkleRootsResponse": "rr"}
+var mrFieldOrder = map[mrKind][]string{"resp": {"Content", "Page"}, "pinfo": {"TotalElements", "Size", "LastEvaluatedKey"}, "rr": {"MerkleRoot", "BlockHeight"},
+													"dconf": {"MerkleRoot", "BlockHeight", "Hash", "TipHeight"}, "conf": {"MerkleRoot", "BlockHeight", "Hash", "Confirmation"}}
+var mrPtrOf = map[mrKind]mrKind{"dbp": "dbv", "hdrp": "hdr", "dconfp": "dconf", "confp": "conf"} // pointer kind ↦ what a dereference yields
+var mrLitTy = map[string]mrKind{"domains.MerkleRootsESKPagedResponse": "resp", "domains.ExclusiveStartKeyPageInfo": "pinfo", "domains.MerkleRootsResponse": "rr",
+	"dto.DbMerkleRootConfirmation": "dconf", "domains.MerkleRootConfirmation": "conf"}
+
+// typed string constants of other packages: package ↦ file; the VALUE is read from the declaration
+var mrPkgConsts = map[string]struct {
+	file string
+	k    mrKind
+	ok   map[string]bool
+}{"domains": {"domains/merkleroots.go", "cstate", map[string]bool{"Confirmed": true, "UnableToVerify": true, "Invalid": true}}}
+
+// plain functions and methods on data values that are translated too
+var mrPkgFuncs = map[string]string{"dto.ConvertToMerkleRootsConfirmations": "repository/dto/headers.go"}
+var mrDataRecv = map[string]mrKind{"DbMerkleRootConfirmation": "dconfp"} // receiver type ↦ kind of the receiver
 
 // Go struct declarations the field tables are checked against: file, type, field ↦ Go type text
 var mrStructs = []struct {
 	file, name string
 	fields     map[string]string
+	mod        string // "" = every module
 }{
-	{"repository/dto/headers.go", "DbBlockHeader", map[string]string{"Height": "int32", "MerkleRoot": "string", "State": "string"}},
-	{"repository/dto/headers.go", "DbMerkleRoot", map[string]string{"Height": "int32", "MerkleRoot": "string"}},
-	{"domains/headers.go", "BlockHeader", map[string]string{"Height": "int32", "MerkleRoot": "chainhash.Hash", "State": "HeaderState"}},
-	{"domains/page.go", "ExclusiveStartKeyPage", map[string]string{"Content": "Content", "Page": "ExclusiveStartKeyPageInfo"}},
-	{"domains/page.go", "ExclusiveStartKeyPageInfo", map[string]string{"TotalElements": "int32", "Size": "int", "LastEvaluatedKey": "string"}},
-	{"domains/merkleroots.go", "MerkleRootsResponse", map[string]string{"MerkleRoot": "string", "BlockHeight": "int32"}},
-	{"domains/merkleroots.go", "MerkleRootsESKPagedResponse", map[string]string{"=": "ExclusiveStartKeyPage[[]MerkleRootsResponse]"}},
-	{"database/repository/header_repository.go", "HeaderRepository", map[string]string{"db": "*sql.HeadersDb"}},
-	{"service/merkleroots_service.go", "MerklerootsService", map[string]string{"repo": "*repository.Repositories"}},
-	{"repository/repository.go", "Repositories", map[string]string{"Headers": "Headers"}},
-	{"transports/http/endpoints/api/merkleroots/endpoints.go", "handler", map[string]string{"service": "service.Merkleroots"}},
+	{"repository/dto/headers.go", "DbMerkleRootConfirmation", map[string]string{"MerkleRoot": "string", "BlockHeight": "int32", "Hash": "sql.NullString", "TipHeight": "int32"}, "Confirmations"},
+	{"domains/merkleroots.go", "MerkleRootConfirmation", map[string]string{"MerkleRoot": "string", "BlockHeight": "int32", "Hash": "string", "Confirmation": "MerkleRootConfirmationState"}, "Confirmations"},
+	{"domains/merkleroots.go", "MerkleRootConfirmationRequestItem", map[string]string{"MerkleRoot": "string", "BlockHeight": "int32"}, "Confirmations"},
+	{"domains/merkleroots.go", "MerkleRootConfirmationState", map[string]string{"=": "string"}, "Confirmations"},
+	{"service/merkleroots_service.go", "MerklerootsService", map[string]string{"merkleCfg": "*config.MerkleRootConfig"}, "Confirmations"},
+	{"config/config.go", "MerkleRootConfig", map[string]string{"MaxBlockHeightExcess": "int"}, "Confirmations"},
+	{"repository/dto/headers.go", "DbBlockHeader", map[string]string{"Height": "int32", "MerkleRoot": "string", "State": "string"}, "MerkleRoots"},
+	{"repository/dto/headers.go", "DbMerkleRoot", map[string]string{"Height": "int32", "MerkleRoot": "string"}, "MerkleRoots"},
+	{"domains/headers.go", "BlockHeader", map[string]string{"Height": "int32", "MerkleRoot": "chainhash.Hash", "State": "HeaderState"}, "MerkleRoots"},
+	{"domains/page.go", "ExclusiveStartKeyPage", map[string]string{"Content": "Content", "Page": "ExclusiveStartKeyPageInfo"}, "MerkleRoots"},
+	{"domains/page.go", "ExclusiveStartKeyPageInfo", map[string]string{"TotalElements": "int32", "Size": "int", "LastEvaluatedKey": "string"}, "MerkleRoots"},
+	{"domains/merkleroots.go", "MerkleRootsResponse", map[string]string{"MerkleRoot": "string", "BlockHeight": "int32"}, "MerkleRoots"},
+	{"domains/merkleroots.go", "MerkleRootsESKPagedResponse", map[string]string{"=": "ExclusiveStartKeyPage[[]MerkleRootsResponse]"}, "MerkleRoots"},
+	{"database/repository/header_repository.go", "HeaderRepository", map[string]string{"db": "*sql.HeadersDb"}, ""},
+	{"service/merkleroots_service.go", "MerklerootsService", map[string]string{"repo": "*repository.Repositories"}, ""},
+	{"repository/repository.go", "Repositories", map[string]string{"Headers": "Headers"}, ""},
+	{"transports/http/endpoints/api/merkleroots/endpoints.go", "handler", map[string]string{"service": "service.Merkleroots"}, "MerkleRoots"},
 }
 
 // SQL primitives keyed by the NAME of the constant: verb, destination kind, argument kinds
@@ -119,13 +159,16 @@ var mrSQL = map[string]struct {
 	args []mrKind
 }{
 	"sqlGetSingleMerkleroot":   {"Get", "dbp", []mrKind{"key"}},
-	"sqlMerkleRootsFromHeight": {"Select", "mroots", []mrKind{"int", "int"}},
+	"sqlMerkleRootsFromHeight": {"Select", "mroots", []mrKind{"i32", "int"}},
 	"sqlSelectTip":             {"Select", "dbvs", nil},
+	"sqlTipOfChainHeight":      {"Get", "i32", nil},
+	"sqlVerifyHash":            {"Get", "nstr", []mrKind{"key", "i32"}},
 }
 
 // receiver type ↦ file, and the wiring: field path after the receiver ↦ type whose method is called
 var mrTypeFile = map[string]string{"HeadersDb": "database/sql/headers.go", "HeaderRepository": "database/repository/header_repository.go",
-	"MerklerootsService": "service/merkleroots_service.go", "handler": "transports/http/endpoints/api/merkleroots/endpoints.go"}
+	"MerklerootsService": "service/merkleroots_service.go", "handler": "transports/http/endpoints/api/merkleroots/endpoints.go",
+	"DbMerkleRootConfirmation": "repository/dto/headers.go"}
 var mrWiring = map[string]map[string]string{"HeadersDb": {"": "HeadersDb"}, "HeaderRepository": {"": "HeaderRepository", "db": "HeadersDb"},
 	"MerklerootsService": {"repo.Headers": "HeaderRepository"}, "handler": {"service": "MerklerootsService"}}
 
@@ -148,6 +191,7 @@ type mrFn struct {
 	file             *mrFile
 	params           []mrKind
 	results          []mrKind
+	useExcess        bool // reads the configured MaxBlockHeightExcess (parameter excess_)
 	text             string
 	state            int // 0 new, 1 in progress, 2 done
 }
@@ -168,8 +212,15 @@ type mrGen struct {
 	fn     *mrFn
 	recv   string
 	http   bool
-	scopes []map[string]mrKind
+	scopes []map[string]mrVar
 	tmp    int
+	loops  []mrCont // what `continue` does, innermost loop last
+	mod    string
+}
+
+type mrVar struct {
+	k    mrKind
+	lean string
 }
 
 type mrCont func(ind int) string
@@ -226,6 +277,9 @@ func (g *mrGen) load(rel string) *mrFile {
 // the field tables against the struct declarations
 func (g *mrGen) checkStructs() {
 	for _, want := range mrStructs {
+		if want.mod != "" && want.mod != g.mod {
+			continue
+		}
 		f := g.load(want.file)
 		var ts *ast.TypeSpec
 		for _, d := range f.ast.Decls {
@@ -268,14 +322,24 @@ func (g *mrGen) checkStructs() {
 
 func (g *mrGen) lookup(name string) (mrKind, int) {
 	for i := len(g.scopes) - 1; i >= 0; i-- {
-		if k, ok := g.scopes[i][name]; ok {
-			return k, i
+		if v, ok := g.scopes[i][name]; ok {
+			return v.k, i
 		}
 	}
 	return "", -1
 }
 
-func (g *mrGen) push() { g.scopes = append(g.scopes, map[string]mrKind{}) }
+// the Lean name of a Go variable in scope
+func (g *mrGen) ref(name string) string {
+	for i := len(g.scopes) - 1; i >= 0; i-- {
+		if v, ok := g.scopes[i][name]; ok {
+			return v.lean
+		}
+	}
+	return admName(name)
+}
+
+func (g *mrGen) push() { g.scopes = append(g.scopes, map[string]mrVar{}) }
 func (g *mrGen) pop()  { g.scopes = g.scopes[:len(g.scopes)-1] }
 
 // `x := …` / `x = …` of a value of kind k; returns the Lean binder
@@ -290,20 +354,23 @@ func (g *mrGen) bind(id ast.Expr, k mrKind, define bool) string {
 	if n.Name == g.recv || strings.HasSuffix(n.Name, "_") || mrTmpRe.MatchString(n.Name) {
 		g.fail(id, "assignment to %s", n.Name)
 	}
+	if k == "lit" {
+		k = "int" // an untyped integer constant defaults to int
+	}
 	old, depth := g.lookup(n.Name)
 	switch {
 	case depth == len(g.scopes)-1 || (!define && depth >= 0): // assignment to an existing variable
 		if old != k {
 			g.fail(id, "%s changes its type (%s, then %s)", n.Name, old, k)
 		}
-	case define && depth >= 0:
-		g.fail(id, "`:=` shadows %s of an enclosing scope", n.Name)
+	case define && depth >= 0: // a new variable that shadows one of an enclosing scope: a fresh Lean name (name', name'', …)
+		g.scopes[len(g.scopes)-1][n.Name] = mrVar{k, g.ref(n.Name) + "'"}
 	case !define:
 		g.fail(id, "assignment to undeclared %s", n.Name)
 	default:
-		g.scopes[len(g.scopes)-1][n.Name] = k
+		g.scopes[len(g.scopes)-1][n.Name] = mrVar{k, admName(n.Name)}
 	}
-	return admName(n.Name)
+	return g.ref(n.Name)
 }
 
 // ---------- expressions ----------
@@ -330,16 +397,18 @@ func (g *mrGen) as(v mrVal, want mrKind, n ast.Node) string {
 	switch {
 	case v.k == want:
 		return v.s
-	case v.k == "nil" && (want == "err" || want == "dbp" || want == "hdrp" || want == "respp"):
+	case v.k == "lit" && (want == "int" || want == "i32"):
+		return v.s
+	case v.k == "nil" && (want == "err" || want == "dbp" || want == "hdrp" || want == "respp" || want == "dconfp" || want == "confp"):
 		return "none"
-	case v.k == "nil" && (want == "mroots" || want == "dbvs"):
+	case v.k == "nil" && (want == "mroots" || want == "dbvs" || want == "dconfps" || want == "confps"):
 		return "[]"
+	case mrSome[v.k] == want && want != "":
+		return "(some " + v.s + ")"
 	case v.k == "empty" && want == "key":
 		return "none"
 	case v.k == "empty" && want == "str":
 		return `""`
-	case v.k == "resp" && want == "respp":
-		return "(some " + v.s + ")"
 	case v.k == "str" && want == "key" && g.http:
 		return "(strKey " + v.s + ")"
 	}
@@ -367,10 +436,12 @@ func (g *mrGen) field(x mrVal, name string, n ast.Node) mrVal {
 
 func (g *mrGen) zero(k mrKind, n ast.Node) string {
 	switch k {
-	case "int":
+	case "int", "i32":
 		return "(0 : Int)"
-	case "key":
+	case "key", "nstr":
 		return "none"
+	case "cstate":
+		return `""`
 	case "rrs":
 		return "[]"
 	case "pinfo", "rr":
@@ -400,7 +471,7 @@ func (g *mrGen) expr(e ast.Expr) mrVal {
 	case *ast.BasicLit:
 		switch x.Kind {
 		case token.INT:
-			return mrVal{s: "(" + x.Value + " : Int)", k: "int"}
+			return mrVal{s: "(" + x.Value + " : Int)", k: "lit"}
 		case token.STRING:
 			if x.Value == `""` {
 				return mrVal{k: "empty"}
@@ -417,7 +488,7 @@ func (g *mrGen) expr(e ast.Expr) mrVal {
 			return mrVal{s: x.Name, k: "bool"}
 		}
 		if k, d := g.lookup(x.Name); d >= 0 {
-			return mrVal{s: admName(x.Name), k: k}
+			return mrVal{s: g.ref(x.Name), k: k}
 		}
 		if c, ok := g.fn.file.consts[x.Name]; ok {
 			if c == `""` {
@@ -432,9 +503,19 @@ func (g *mrGen) expr(e ast.Expr) mrVal {
 		case mrPath(x.X) == "bhserrors" && strings.HasPrefix(x.Sel.Name, "Err"):
 			return mrVal{s: "(some (Err.bhs " + leanStr(x.Sel.Name) + "))", k: "err"}
 		case p == "http.StatusOK":
-			return mrVal{s: "(200 : Int)", k: "int"}
+			return mrVal{s: "(200 : Int)", k: "lit"}
 		case strings.HasPrefix(p, "domains.") && mrStates[x.Sel.Name] != "":
 			return mrVal{s: mrStates[x.Sel.Name], k: "state"}
+		case g.recv != "" && g.fn.recv == "MerklerootsService" && p == g.recv+".merkleCfg.MaxBlockHeightExcess":
+			g.fn.useExcess = true
+			return mrVal{s: "excess_", k: "int"}
+		}
+		if pc, ok := mrPkgConsts[mrPath(x.X)]; ok && pc.ok[x.Sel.Name] {
+			c, found := g.load(pc.file).consts[x.Sel.Name]
+			if !found {
+				g.fail(e, "constant %s not found in %s", p, pc.file)
+			}
+			return mrVal{s: mrStr(c), k: pc.k}
 		}
 		return g.field(g.expr(x.X), x.Sel.Name, e)
 	case *ast.IndexExpr:
@@ -452,7 +533,7 @@ func (g *mrGen) expr(e ast.Expr) mrVal {
 			return mrVal{s: "(!" + v.s + ")", k: "bool", m: v.m}
 		case token.SUB:
 			if bl, ok := x.X.(*ast.BasicLit); ok && bl.Kind == token.INT {
-				return mrVal{s: "(-" + bl.Value + " : Int)", k: "int"}
+				return mrVal{s: "(-" + bl.Value + " : Int)", k: "lit"}
 			}
 		case token.AND:
 			if ix, ok := x.X.(*ast.IndexExpr); ok { // &xs[i] of a slice of structs: a non-nil pointer
@@ -463,7 +544,7 @@ func (g *mrGen) expr(e ast.Expr) mrVal {
 			}
 			if cl, ok := x.X.(*ast.CompositeLit); ok { // &T{…}: a fresh, non-nil struct
 				v := g.expr(cl)
-				if v.k == "resp" {
+				if mrSome[v.k] != "" {
 					return v
 				}
 			}
@@ -506,8 +587,8 @@ func (g *mrGen) binary(x *ast.BinaryExpr) mrVal {
 	switch x.Op {
 	case token.LAND, token.LOR:
 		l, r := g.want(x.X, "bool"), g.want(x.Y, "bool")
-		if r.m {
-			g.fail(x.Y, "an operand that can fault on the right of %s", x.Op)
+		if r.m { // the right operand can fault: it is evaluated only when the left one does not decide (monadic <&&> / <||>)
+			return mrVal{s: "(← (pure (" + l.s + ") <" + x.Op.String() + "> (do pure (" + r.s + "))))", k: "bool", m: true}
 		}
 		return mrVal{s: "(" + l.s + " " + x.Op.String() + " " + r.s + ")", k: "bool", m: l.m}
 	case token.EQL, token.NEQ:
@@ -516,7 +597,7 @@ func (g *mrGen) binary(x *ast.BinaryExpr) mrVal {
 			l, r = r, l
 		}
 		if r.k == "nil" || r.k == "empty" {
-			ok := map[mrKind]bool{"err": true, "dbp": true, "hdrp": true, "respp": true}[l.k]
+			ok := map[mrKind]bool{"err": true, "dbp": true, "hdrp": true, "respp": true, "dconfp": true, "confp": true}[l.k]
 			if r.k == "empty" {
 				ok = l.k == "key"
 			}
@@ -529,7 +610,8 @@ func (g *mrGen) binary(x *ast.BinaryExpr) mrVal {
 			}
 			return mrVal{s: l.s + test, k: "bool", m: l.m}
 		}
-		if l.k != r.k || l.multi != nil || r.multi != nil || !map[mrKind]bool{"int": true, "key": true, "state": true, "str": true, "hash": true, "bool": true}[l.k] {
+		g.intKind(x, &l, &r)
+		if l.k != r.k || l.multi != nil || r.multi != nil || !map[mrKind]bool{"int": true, "i32": true, "lit": true, "key": true, "state": true, "str": true, "hash": true, "bool": true, "cstate": true}[l.k] {
 			g.fail(x, "comparison of kinds %s and %s", l.k, r.k)
 		}
 		op := "="
@@ -538,15 +620,43 @@ func (g *mrGen) binary(x *ast.BinaryExpr) mrVal {
 		}
 		return mrVal{s: "decide (" + l.s + " " + op + " " + r.s + ")", k: "bool", m: l.m || r.m}
 	case token.LSS, token.LEQ, token.GTR, token.GEQ:
-		l, r := g.want(x.X, "int"), g.want(x.Y, "int")
+		l, r := g.expr(x.X), g.expr(x.Y)
+		g.intKind(x, &l, &r)
 		op := map[token.Token]string{token.LSS: "<", token.LEQ: "≤", token.GTR: ">", token.GEQ: "≥"}[x.Op]
 		return mrVal{s: "decide (" + l.s + " " + op + " " + r.s + ")", k: "bool", m: l.m || r.m}
 	case token.ADD, token.SUB:
-		l, r := g.want(x.X, "int"), g.want(x.Y, "int")
-		return mrVal{s: "(" + l.s + " " + x.Op.String() + " " + r.s + ")", k: "int", m: l.m || r.m}
+		l, r := g.expr(x.X), g.expr(x.Y)
+		kd := g.intKind(x, &l, &r)
+		t := "(" + l.s + " " + x.Op.String() + " " + r.s + ")"
+		if kd == "i32" { // int32 arithmetic wraps around
+			t = "(toInt32 " + t + ")"
+		}
+		return mrVal{s: t, k: kd, m: l.m || r.m}
 	}
 	g.fail(x, "operator %s", x.Op)
 	return mrVal{}
+}
+
+// the common integer kind of two operands (int, int32 or both untyped constants); an untyped constant takes the kind
+// of the other operand; int and int32 do not mix (Go needs a conversion there)
+func (g *mrGen) intKind(x ast.Node, l, r *mrVal) mrKind {
+	isInt := func(k mrKind) bool { return k == "int" || k == "i32" || k == "lit" }
+	if l.multi != nil || r.multi != nil || !isInt(l.k) || !isInt(r.k) {
+		if x.(*ast.BinaryExpr).Op == token.EQL || x.(*ast.BinaryExpr).Op == token.NEQ {
+			return ""
+		}
+		g.fail(x, "integer operator on kinds %s and %s", l.k, r.k)
+	}
+	if l.k == "lit" {
+		l.k = r.k
+	}
+	if r.k == "lit" {
+		r.k = l.k
+	}
+	if l.k != r.k {
+		g.fail(x, "operands of kinds %s and %s (int and int32 do not mix)", l.k, r.k)
+	}
+	return l.k
 }
 
 func (g *mrGen) strLit(e ast.Expr) string {
@@ -579,6 +689,33 @@ func (g *mrGen) call(x *ast.CallExpr) mrVal {
 	case p == "make" && nargs == 2 && types.ExprString(x.Args[0]) == "[]domains.MerkleRootsResponse":
 		n := g.want(x.Args[1], "int")
 		return mrVal{s: "(makeRootResps " + n.s + ")", k: "rrs", m: n.m}
+	case p == "make" && nargs == 2 && mrMakeEmpty[types.ExprString(x.Args[0])] != "":
+		if bl, ok := x.Args[1].(*ast.BasicLit); !ok || bl.Value != "0" {
+			g.fail(x, "make of a pointer slice with a length other than the literal 0")
+		}
+		return mrVal{s: "[]", k: mrMakeEmpty[types.ExprString(x.Args[0])]}
+	case p == "append" && nargs == 2:
+		xs := g.expr(x.Args[0])
+		el, ok := mrElem[xs.k]
+		if !ok {
+			g.fail(x, "append to a value of kind %s", xs.k)
+		}
+		v := g.want(x.Args[1], el)
+		return mrVal{s: "(" + xs.s + " ++ [" + v.s + "])", k: xs.k, m: xs.m || v.m}
+	case p == "int32" && nargs == 1:
+		v := g.expr(x.Args[0])
+		if v.k != "int" && v.k != "i32" && v.k != "lit" {
+			g.fail(x, "int32 of a value of kind %s", v.k)
+		}
+		return mrVal{s: "(toInt32 " + v.s + ")", k: "i32", m: v.m}
+	case p == "int" && nargs == 1:
+		v := g.expr(x.Args[0])
+		if v.k != "int" && v.k != "i32" && v.k != "lit" {
+			g.fail(x, "int of a value of kind %s", v.k)
+		}
+		return mrVal{s: v.s, k: "int", m: v.m}
+	case mrPkgFuncs[p] != "":
+		return g.invoke(g.function("", p, x), nil, x)
 	case p == "errors.Is" && nargs == 2 && mrPath(x.Args[1]) == "sql.ErrNoRows":
 		v := g.want(x.Args[0], "err")
 		return mrVal{s: "(isNoRows " + v.s + ")", k: "bool", m: v.m}
@@ -607,31 +744,16 @@ func (g *mrGen) call(x *ast.CallExpr) mrVal {
 	if root := strings.SplitN(p, ".", 2)[0]; root == g.recv && g.recv != "" {
 		via := strings.TrimPrefix(strings.TrimPrefix(mrPath(sel.X), g.recv), ".")
 		if ty, ok := mrWiring[g.fn.recv][via]; ok {
-			callee := g.function(ty, sel.Sel.Name, x)
-			var args []string
-			i := 0
-			for _, a := range x.Args {
-				v := g.expr(a)
-				if v.k == "ctx" {
-					continue
-				}
-				if i >= len(callee.params) {
-					g.fail(x, "too many arguments for %s", callee.lean)
-				}
-				if v.m {
-					g.fail(a, "an argument that can fault")
-				}
-				args = append(args, g.as(v, callee.params[i], a))
-				i++
-			}
-			if i != len(callee.params) {
-				g.fail(x, "argument count of %s", callee.lean)
-			}
-			return mrVal{s: strings.TrimSpace(callee.lean + " db_ " + strings.Join(args, " ")), multi: callee.results, m: true}
+			return g.invoke(g.function(ty, sel.Sel.Name, x), nil, x)
 		}
 		g.fail(x, "call %s: %q is not in the wiring table of %s", p, via, g.fn.recv)
 	}
 	recv := g.expr(sel.X)
+	for ty, kd := range mrDataRecv { // a translated method on a data value: the receiver is the first argument
+		if recv.k == kd && sel.Sel.Name != "" && g.hasMethod(ty, sel.Sel.Name) {
+			return g.invoke(g.function(ty, sel.Sel.Name, x), &recv, x)
+		}
+	}
 	switch {
 	case sel.Sel.Name == "ToBlockHeader" && nargs == 0 && recv.k == "dbp":
 		return mrVal{s: "(← toBlockHeader " + recv.s + ")", k: "hdrp", m: true}
@@ -645,6 +767,58 @@ func (g *mrGen) call(x *ast.CallExpr) mrVal {
 	}
 	g.fail(x, "call %s (not in the primitive table)", p)
 	return mrVal{}
+}
+
+// call of a translated function: `(← f db_ [excess_] [receiver] args…)`; several results stay a tuple to be bound
+func (g *mrGen) invoke(callee *mrFn, recv *mrVal, x *ast.CallExpr) mrVal {
+	var args []string
+	i := 0
+	if callee.useExcess {
+		g.fn.useExcess = true
+		args = append(args, "excess_")
+	}
+	if recv != nil {
+		if recv.m {
+			g.fail(x, "a receiver that can fault")
+		}
+		args = append(args, g.as(*recv, callee.params[0], x))
+		i = 1
+	}
+	for _, a := range x.Args {
+		v := g.expr(a)
+		if v.k == "ctx" {
+			continue
+		}
+		if i >= len(callee.params) {
+			g.fail(x, "too many arguments for %s", callee.lean)
+		}
+		if v.m {
+			g.fail(a, "an argument that can fault")
+		}
+		args = append(args, g.as(v, callee.params[i], a))
+		i++
+	}
+	if i != len(callee.params) {
+		g.fail(x, "argument count of %s", callee.lean)
+	}
+	t := strings.TrimSpace(callee.lean + " db_ " + strings.Join(args, " "))
+	if len(callee.results) == 1 {
+		return mrVal{s: "(← " + t + ")", k: callee.results[0], m: true}
+	}
+	return mrVal{s: t, multi: callee.results, m: true}
+}
+
+func (g *mrGen) hasMethod(recvTy, name string) bool {
+	rel, ok := mrTypeFile[recvTy]
+	if !ok {
+		return false
+	}
+	for _, d := range g.load(rel).ast.Decls {
+		if fd, ok := d.(*ast.FuncDecl); ok && fd.Name.Name == name && fd.Recv != nil && len(fd.Recv.List) == 1 && types.ExprString(fd.Recv.List[0].Type) == "*"+recvTy {
+			return true
+		}
+	}
+	return false
 }
 
 // ---------- statements ----------
@@ -675,7 +849,7 @@ func (g *mrGen) outside(depth int, f func() string) string {
 	saved := g.scopes
 	g.scopes = nil
 	for _, m := range saved[:depth] {
-		c := map[string]mrKind{}
+		c := map[string]mrVar{}
 		for k, v := range m {
 			c[k] = v
 		}
@@ -728,7 +902,7 @@ func (g *mrGen) dbCall(e ast.Expr) (string, string, bool) {
 	if len(c.Args)-2 != len(prim.args) {
 		g.fail(c, "argument count of %s", name.Name)
 	}
-	s := "db" + prim.verb + "_" + name.Name + " db_ " + admName(dest.Name)
+	s := "db" + prim.verb + "_" + name.Name + " db_ " + g.ref(dest.Name)
 	for i, a := range c.Args[2:] {
 		v := g.want(a, prim.args[i])
 		if v.m {
@@ -736,7 +910,7 @@ func (g *mrGen) dbCall(e ast.Expr) (string, string, bool) {
 		}
 		s += " " + v.s
 	}
-	return s, admName(dest.Name), true
+	return s, g.ref(dest.Name), true
 }
 
 func (g *mrGen) assign(x *ast.AssignStmt, ind int, k mrCont) string {
@@ -759,11 +933,15 @@ func (g *mrGen) assign(x *ast.AssignStmt, ind int, k mrCont) string {
 		if v.multi != nil || v.k == "nil" || v.k == "empty" || v.k == "ctx" {
 			g.fail(x, "assignment of this value")
 		}
-		if id, ok := x.Rhs[0].(*ast.Ident); ok && v.k == "resp" {
+		if id, ok := x.Rhs[0].(*ast.Ident); ok && mrSome[v.k] != "" {
 			g.fail(x, "copy of the pointer %s", id.Name)
 		}
 		n := g.bind(x.Lhs[0], v.k, define)
-		return mrPad(ind) + "let " + n + " := " + v.s + "\n" + k(ind)
+		kd, _ := g.lookup(x.Lhs[0].(*ast.Ident).Name)
+		if n == "_" {
+			kd = v.k
+		}
+		return mrPad(ind) + "let " + n + " : " + g.leanTy(kd) + " := " + v.s + "\n" + k(ind)
 	}
 	v := g.expr(x.Rhs[0])
 	if len(v.multi) != len(x.Lhs) {
@@ -813,7 +991,7 @@ func (g *mrGen) pathAssign(x *ast.AssignStmt, ind int, k mrCont) string {
 		g.fail(x.Lhs[0], "field assignment on %s", root.Name)
 	}
 	// resolve the kinds along the path
-	cur, curK := admName(root.Name), rk
+	cur, curK := g.ref(root.Name), rk
 	var pre, post []mrField
 	var idx ast.Expr
 	var sliceTerm string
@@ -851,7 +1029,7 @@ func (g *mrGen) pathAssign(x *ast.AssignStmt, ind int, k mrCont) string {
 		}
 		return rec(base, fs)
 	}
-	r := admName(root.Name)
+	r := g.ref(root.Name)
 	if idx == nil {
 		return mrPad(ind) + "let " + r + " := " + nest(r, pre, v.s) + "\n" + k(ind)
 	}
@@ -885,6 +1063,11 @@ func (g *mrGen) stmt(s ast.Stmt, ind int, k mrCont) string {
 		return g.ifStmt(x, ind, k)
 	case *ast.RangeStmt:
 		return g.rangeStmt(x, ind, k)
+	case *ast.BranchStmt:
+		if x.Tok != token.CONTINUE || x.Label != nil || len(g.loops) == 0 {
+			g.fail(s, "%s", x.Tok)
+		}
+		return g.loops[len(g.loops)-1](ind)
 	case *ast.DeclStmt:
 		gd, ok := x.Decl.(*ast.GenDecl)
 		if !ok || gd.Tok != token.VAR {
@@ -895,7 +1078,7 @@ func (g *mrGen) stmt(s ast.Stmt, ind int, k mrCont) string {
 			vs := sp.(*ast.ValueSpec)
 			kd, ok := mrVarTy[types.ExprString(vs.Type)]
 			if vs.Type == nil || !ok || len(vs.Values) != 0 {
-				g.fail(s, "var declaration other than an uninitialised scan target (dto.DbBlockHeader, []dto.DbBlockHeader, []*dto.DbMerkleRoot)")
+				g.fail(s, "var declaration other than an uninitialised variable of a type of the table mrVarTy")
 			}
 			for _, n := range vs.Names {
 				out += mrPad(ind) + "let " + g.bind(n, kd, true) + " : " + g.leanTy(kd) + " := " + mrVarZero[kd] + "\n"
@@ -922,7 +1105,7 @@ func (g *mrGen) stmt(s ast.Stmt, ind int, k mrCont) string {
 				if kd, _ := g.lookup(id.Name); kd == "gin" {
 					st := g.want(c.Args[0], "int")
 					v := g.want(c.Args[1], "respp")
-					return mrPad(ind) + "let " + admName(id.Name) + " := ginJSON " + admName(id.Name) + " " + st.s + " " + v.s + "\n" + k(ind)
+					return mrPad(ind) + "let " + g.ref(id.Name) + " := ginJSON " + g.ref(id.Name) + " " + st.s + " " + v.s + "\n" + k(ind)
 				}
 			}
 		}
@@ -1021,11 +1204,18 @@ func (g *mrGen) rangeStmt(x *ast.RangeStmt, ind int, k mrCont) string {
 	seen := map[string]bool{}
 	ast.Inspect(x.Body, func(n ast.Node) bool {
 		switch y := n.(type) {
-		case *ast.ReturnStmt, *ast.BranchStmt, *ast.DeferStmt, *ast.GoStmt, *ast.FuncLit, *ast.LabeledStmt:
+		case *ast.BranchStmt:
+			if y.Tok != token.CONTINUE || y.Label != nil {
+				g.fail(n, "%s inside a range loop", y.Tok)
+			}
+		case *ast.ReturnStmt, *ast.DeferStmt, *ast.GoStmt, *ast.FuncLit, *ast.LabeledStmt:
 			g.fail(n, "%T inside a range loop", n)
 		case *ast.IncDecStmt:
 			g.fail(n, "++/--")
 		case *ast.AssignStmt:
+			if y.Tok == token.DEFINE { // `:=` inside the body declares (or reuses) variables of the body, never an outer one
+				return true
+			}
 			for _, l := range y.Lhs {
 				e := l
 				for {
@@ -1040,7 +1230,7 @@ func (g *mrGen) rangeStmt(x *ast.RangeStmt, ind int, k mrCont) string {
 				if id, ok := e.(*ast.Ident); ok && !seen[id.Name] {
 					if _, d := g.lookup(id.Name); d >= 0 {
 						seen[id.Name] = true
-						state = append(state, admName(id.Name))
+						state = append(state, g.ref(id.Name))
 					}
 				}
 			}
@@ -1063,13 +1253,17 @@ func (g *mrGen) rangeStmt(x *ast.RangeStmt, ind int, k mrCont) string {
 		return g.bind(e, kd, true)
 	}
 	iN, xN := name(x.Key, "int"), name(x.Value, el)
-	body := g.scoped(x.Body.List, ind+1, func(ind2 int) string { return mrPad(ind2) + "pure " + tup })
+	next := func(ind2 int) string { return mrPad(ind2) + "pure " + tup } // the end of the body and `continue`
+	g.loops = append(g.loops, next)
+	body := g.scoped(x.Body.List, ind+1, next)
+	g.loops = g.loops[:len(g.loops)-1]
 	g.scopes = g.scopes[:outer]
 	return mrPad(ind) + "let " + tup + " ← forRange " + xs.s + " " + tup + " (fun " + iN + " " + xN + " " + tup + " => do\n" + body + ")\n" + k(ind)
 }
 
 // ---------- functions ----------
 
+// the translated function (*recvTy).name; recvTy "" = the plain function `pkg.Name` of the table mrPkgFuncs
 func (g *mrGen) function(recvTy, name string, at ast.Node) *mrFn {
 	key := recvTy + "." + name
 	if fn, ok := g.fns[key]; ok {
@@ -1079,6 +1273,11 @@ func (g *mrGen) function(recvTy, name string, at ast.Node) *mrFn {
 		return fn
 	}
 	rel, ok := mrTypeFile[recvTy]
+	lean, fname := recvTy+"_"+name, name
+	if recvTy == "" {
+		rel, ok = mrPkgFuncs[name], true
+		lean, fname = strings.ReplaceAll(name, ".", "_"), name[strings.Index(name, ".")+1:]
+	}
 	if !ok {
 		g.fail(at, "type %s is not in the file table", recvTy)
 	}
@@ -1086,17 +1285,23 @@ func (g *mrGen) function(recvTy, name string, at ast.Node) *mrFn {
 	var decl *ast.FuncDecl
 	for _, d := range f.ast.Decls {
 		fd, ok := d.(*ast.FuncDecl)
-		if ok && fd.Name.Name == name && fd.Recv != nil && len(fd.Recv.List) == 1 && types.ExprString(fd.Recv.List[0].Type) == "*"+recvTy {
+		if !ok || fd.Name.Name != fname {
+			continue
+		}
+		if recvTy == "" && fd.Recv == nil {
+			decl = fd
+		}
+		if recvTy != "" && fd.Recv != nil && len(fd.Recv.List) == 1 && types.ExprString(fd.Recv.List[0].Type) == "*"+recvTy {
 			decl = fd
 		}
 	}
 	if decl == nil || decl.Body == nil {
 		if at != nil {
-			g.fail(at, "method (*%s).%s not found in %s", recvTy, name, rel)
+			g.fail(at, "function %s not found in %s", key, rel)
 		}
-		panic(mrErr{fmt.Sprintf("%s: unsupported: method (*%s).%s not found", f.path, recvTy, name)})
+		panic(mrErr{fmt.Sprintf("%s: unsupported: function %s not found", f.path, key)})
 	}
-	fn := &mrFn{recv: recvTy, name: name, lean: recvTy + "_" + name, decl: decl, file: f, state: 1}
+	fn := &mrFn{recv: recvTy, name: name, lean: lean, decl: decl, file: f, state: 1}
 	g.fns[key] = fn
 	// signature
 	type pr struct {
@@ -1104,6 +1309,18 @@ func (g *mrGen) function(recvTy, name string, at ast.Node) *mrFn {
 		k    mrKind
 	}
 	var params []pr
+	recvName := ""
+	if recvTy != "" && len(decl.Recv.List[0].Names) == 1 {
+		recvName = decl.Recv.List[0].Names[0].Name
+	}
+	if kd, ok := mrDataRecv[recvTy]; ok { // a method on a data value: the receiver is the first parameter
+		if recvName == "" {
+			g.fail(decl, "unnamed receiver")
+		}
+		params = append(params, pr{recvName, kd})
+		fn.params = append(fn.params, kd)
+		recvName = ""
+	}
 	for _, p := range decl.Type.Params.List {
 		kd, ok := mrGoTy[types.ExprString(p.Type)]
 		if !ok {
@@ -1133,16 +1350,13 @@ func (g *mrGen) function(recvTy, name string, at ast.Node) *mrFn {
 		g.fail(decl, "result list")
 	}
 	// save and reset the per-function state (callees are translated on demand, in the middle of the caller)
-	sFn, sRecv, sHTTP, sScopes, sTmp := g.fn, g.recv, g.http, g.scopes, g.tmp
-	g.fn, g.http, g.scopes, g.tmp = fn, recvTy == "handler", []map[string]mrKind{{}}, 0
-	g.recv = ""
-	if len(decl.Recv.List[0].Names) == 1 {
-		g.recv = decl.Recv.List[0].Names[0].Name
-	}
-	sig := "def " + fn.lean + " (db_ : Store " + g.hty() + ")"
+	sFn, sRecv, sHTTP, sScopes, sTmp, sLoops := g.fn, g.recv, g.http, g.scopes, g.tmp, g.loops
+	g.fn, g.http, g.scopes, g.tmp, g.loops = fn, recvTy == "handler", []map[string]mrVar{{}}, 0, nil
+	g.recv = recvName
+	sig := ""
 	for _, p := range params {
 		if p.name != "_" {
-			g.scopes[0][p.name] = p.k
+			g.scopes[0][p.name] = mrVar{p.k, admName(p.name)}
 		}
 		sig += " (" + admName(p.name) + " : " + g.leanTy(p.k) + ")"
 	}
@@ -1153,22 +1367,26 @@ func (g *mrGen) function(recvTy, name string, at ast.Node) *mrFn {
 	if recvTy == "handler" {
 		resTy = []string{"Gin"}
 	}
-	sig += " : Except Fault (" + strings.Join(resTy, " × ") + ") := do\n"
 	body := g.block(decl.Body.List, 1, func(ind int) string {
 		if recvTy != "handler" {
 			g.fail(decl, "missing return at the end of %s", name)
 		}
 		return mrPad(ind) + "pure " + g.ginName()
 	})
+	head := "def " + fn.lean + " (db_ : Store " + g.hty() + ")"
+	if fn.useExcess {
+		head += " (excess_ : Int)"
+	}
+	sig = head + sig + " : Except Fault (" + strings.Join(resTy, " × ") + ") := do\n"
 	goSig := strings.Join(strings.Fields(string(f.src[g.fset.Position(decl.Pos()).Offset:g.fset.Position(decl.Body.Lbrace).Offset])), " ")
-	fn.text = "/-- " + mrTypeFile[recvTy] + ": " + goSig + " -/\n" + sig + body + "\n"
+	fn.text = "/-- " + rel + ": " + goSig + " -/\n" + sig + body + "\n"
 	fn.state = 2
 	g.order = append(g.order, fn)
-	g.fn, g.recv, g.http, g.scopes, g.tmp = sFn, sRecv, sHTTP, sScopes, sTmp
+	g.fn, g.recv, g.http, g.scopes, g.tmp, g.loops = sFn, sRecv, sHTTP, sScopes, sTmp, sLoops
 	return fn
 }
 
-func genMerkleRoots() (res string, err error) {
+func mrModule(mod, rootTy, rootFn, prim, what string) (res string, err error) {
 	defer func() {
 		if r := recover(); r != nil {
 			if e, ok := r.(mrErr); ok {
@@ -1178,17 +1396,28 @@ func genMerkleRoots() (res string, err error) {
 			panic(r)
 		}
 	}()
-	g := &mrGen{fset: token.NewFileSet(), files: map[string]*mrFile{}, fns: map[string]*mrFn{}}
+	g := &mrGen{fset: token.NewFileSet(), files: map[string]*mrFile{}, fns: map[string]*mrFn{}, mod: mod}
 	g.checkStructs()
-	g.function("handler", "merkleroots", nil)
+	g.function(rootTy, rootFn, nil)
 	var b strings.Builder
 	b.WriteString(genHeader)
-	b.WriteString("-- the merkle-root listing (handler, service, repository, SQL layer) translated by harness/cmd/extract/gen_merkleroots.go\n")
+	b.WriteString("-- " + what + " translated by harness/cmd/extract/gen_merkleroots.go\n")
 	b.WriteString("-- (subset, primitive table, effect and skip lists: see its header)\n")
-	b.WriteString("import BHS.Model.MerkleRootsPrim\n\nset_option linter.unusedVariables false\n\nnamespace BHS.Gen.MerkleRoots\nopen BHS BHS.Chain BHS.MerkleRootsPrim\nvariable {H : Type} [DecidableEq H]\n\n")
+	b.WriteString("import BHS.Model." + prim + "\n\nset_option linter.unusedVariables false\n\nnamespace BHS.Gen." + mod + "\nopen BHS BHS.Chain BHS.MerkleRootsPrim\nvariable {H : Type} [DecidableEq H]\n\n")
 	for _, fn := range g.order {
 		b.WriteString(fn.text + "\n")
 	}
-	b.WriteString("end BHS.Gen.MerkleRoots\n")
+	b.WriteString("end BHS.Gen." + mod + "\n")
 	return b.String(), nil
+}
+
+func genMerkleRoots() (string, error) {
+	return mrModule("MerkleRoots", "handler", "merkleroots", "MerkleRootsPrim",
+		"the merkle-root listing (handler, service, repository, SQL layer)")
+}
+
+// Gen.Confirmations: the merkle-root verification below the handler (property C02) — service → repository → dto mapping → SQL layer
+func genConfirmations() (string, error) {
+	return mrModule("Confirmations", "MerklerootsService", "GetMerkleRootsConfirmations", "ConfirmationsPrim",
+		"the merkle-root verification below the handler (service, repository, dto mapping, SQL layer)")
 }
